@@ -16,7 +16,7 @@ PROPS["C05"] = dict(
          "of the first tenure is in flight, optionally with the second Create itself in flight while the late renewal completes): the second tenure is acquired, present, unexpired and exclusive for 2.5 leases; "
          "unlockfail(the Delete made by Unlock is lost on the way in, or its reply is, after 0..1.4 leases of holding, or with a renewal held in flight across the Unlock - before or after the storage applied it; that one attempt may still complete): <= 1 renewal attempt afterwards, none succeeds, a contender acquires right after the expiration the record had then "
          "and keeps its own record for 1.5 leases. In half of the hold scenarios the contender tries with a blocking LockWithCtx (a tenth of a lease) instead of TryLock, and 1-3 of its Create calls fail (request lost, or applied with the reply lost): "
-         "a failing contender must not disturb the holder's record. trygate: two goroutines share a Locker and the second one's TryLock/LockWithCtx uses a context that parks the first time the lock code consults it, so that the first goroutine's Unlock can be placed inside the attempt; the second goroutine then holds for 1.8 leases. Hold scenarios also acquire with a context whose deadline (a quarter of a lease) simply runs out while the lock is held, and the injected renewal failures take six shapes (a plain error, errors wrapping ErrClosed / ErrCommunication / ErrInternal, context.DeadlineExceeded, io.ErrUnexpectedEOF - never ErrNotExist or ErrConflict, which are answers). sharedhandoff: two goroutines share one Locker, the first unlocks while the second waits in Lock(), and the Delete of that Unlock is answered (or forwarded) a tenth of a lease late: the second goroutine gets the lock and keeps it for 2.5 leases. One hold scenario in six is a long tenure (6-12 leases) with up to 7 isolated renewal failures, each repaired by its retry. A multi unit runs, one scenario at a time (nothing else may touch the timer machinery), a process that holds 2-5 locks acquired 0-0.3 leases apart and unlocks a drawn subset at drawn moments "
+         "a failing contender must not disturb the holder's record. trygate: two goroutines share a Locker and the second one's TryLock/LockWithCtx uses a context that parks the first time the lock code consults it, so that the first goroutine's Unlock can be placed inside the attempt; the second goroutine then holds for 1.8 leases. Hold scenarios also acquire with a context whose deadline (a quarter of a lease) simply runs out while the lock is held, and the injected renewal failures take six shapes (a plain error, errors wrapping ErrClosed / ErrCommunication / ErrInternal, context.DeadlineExceeded, io.ErrUnexpectedEOF - never ErrNotExist or ErrConflict, which are answers). Further shapes: three renewal failures in a row (the retries at 5/8, 6/8, 7/8 of the lease; the last one succeeds); another goroutine of the process using the holder's Locker meanwhile (its LockWithCtx cancelled while it waits for the token, or a failing TryLock); after an Unlock whose Delete failed THE SAME Locker calls LockWithCtx at once and must get the lock when the leftover record has lapsed; death with several waiters of which the one that started waiting first gives up before the record expires; the multi unit may first run 2-12 callbacks due at once through the process-wide timer pool and leave it idle before the first lock is taken. sharedhandoff: two goroutines share one Locker, the first unlocks while the second waits in Lock(), and the Delete of that Unlock is answered (or forwarded) a tenth of a lease late: the second goroutine gets the lock and keeps it for 2.5 leases. One hold scenario in six is a long tenure (6-12 leases) with up to 7 isolated renewal failures, each repaired by its retry. A multi unit runs, one scenario at a time (nothing else may touch the timer machinery), a process that holds 2-5 locks acquired 0-0.3 leases apart and unlocks a drawn subset at drawn moments "
          "(systematic: the two older of three locks unlocked in order of age at several phase pairs): the locks still held keep their records present and unexpired for three leases. Batches of 4..8 scenarios run concurrently. lease 300 ms (quick) / 60 ms..1 s (thorough). "
          "non-trivial = hold with >= 1 injected failure, death, handoff, waithold, unlockfail, or unlockrace/relock whose renewal really was in flight; distinct = hash of the scenario",
     assumptions=["real clock: a verdict that depends on an upper time bound is confirmed by re-running the scenario with the lease doubled (twice) before it is "
